@@ -226,6 +226,11 @@ def run(ck):
     from .c12 import stored_unconverted as _su11
     if ck.wants("C11.16"):
         _su11(RuleView(ck, {"C12.7": "C11.16"}, only_files=("src/correlation/peak.py",)), "C12.7")
+    ck.clause("C11.19", "a join is refused on coordinates only (as C14.2: -inf exactly for an excessive overlap): a further test on label "
+                        "numbers - which descend along a reverse-strand query - refuses every join of a '-' molecule and none of its mirror image")
+    if ck.wants("C11.19"):
+        from . import c14 as _c14_11b
+        _c14_11b.join_score(RuleView(ck, {"C14.2": "C11.19"}))
     ck.clause("C11.17", "the reverse strand's vector is the forward vector reversed, so the forward vector must end in the last label's "
                         "bin: nothing is padded, cut or re-sized between vectorisation and blur (as C16.6) - a padded tail becomes a "
                         "shifted head on the reverse strand only")
